@@ -44,6 +44,8 @@ def gc_jobs(tier, prop):
             J.append(Job("C17.GC.rehash.%dto%d" % (o, n), "C17", "K3", "GC/k3.c", "h_rehash", ["GC_Rehash"], link=L, defines=["NS=%d" % o, "NEWSIZE=%d" % n],
                          replace_calls=["exception_throw:cv_throw", "GC_Set_Ptr:cv_set_ptr_rec"], unwind=14, group="GC.rehash", also=["C06"], timeout=600,
                          case="rehash %d -> %d" % (o, n), bound="rehash over the set_ptr contract, capacities 1,3,5 -> 1,5,11"))
+        J.append(Job("C17.GC.probe", "C17", "K2", "GC/k3.c", "h_probe", ["GC_Probe"], link=L, defines=["NS=1"], replace_calls=["exception_throw:cv_throw"], unwind=4,
+                     group="GC.probe", timeout=600, bound="every capacity up to 2^40"))
         J.append(Job("C17.GC.policy", "C17", "K3", "GC/k3.c", "h_policy", ["GC_Ideal_Size", "GC_Resize_More", "GC_Resize_Less"], link=L, defines=["NS=1"],
                      replace_calls=["exception_throw:cv_throw", "GC_Rehash:cv_rehash_stub"], unwind=123, group="GC.policy", timeout=600, bound="item counts 0..120"))
     return J
